@@ -88,7 +88,14 @@ func (h *H) Assert(id string, c bool) {
 }
 
 func (h *H) Fail(id string)          { h.Failed = append(h.Failed, id) }
-func (h *H) Tag(t string)            { h.Tags = append(h.Tags, t) }
+func (h *H) Tag(t string) {
+	for _, x := range h.Tags {
+		if x == t {
+			return
+		}
+	}
+	h.Tags = append(h.Tags, t)
+}
 func (h *H) Reach(id string)         {}
 func (h *H) SetAllocLimit(n int)     { h.AllocLimit = n }
 
